@@ -27,7 +27,7 @@ GRID = [k / 4.0 for k in range(-12, 13)]
 
 
 def bounds(tier):
-    return {'n_max': NMAX[tier], 'grid': 'k/4, |k|<=12', 'call_forms': ['float', '0-d', '1-d', 'out=']}
+    return {'n_max': NMAX[tier], 'grid': 'k/4, |k|<=12', 'call_forms': ['float', '0-d', '1-d', 'out=', 'one array asked for orders 0..n in turn'], 'argument_preserved': True}
 
 
 def specs():
@@ -143,22 +143,45 @@ def run_unit(u):
         out['fails'].append({'sig': 'C16|%s|n=%d|%s' % (label, n, form),
                              'case': dict(u), 'detail': {'x': x, 'got': got, 'expected': ref, 'form': form}})
     forms = {}
+    def preserved(form, a):
+        # "at that point": the caller's array still holds the points after the call (the consumer _eval_slow_generic asks for
+        # order after order on the same array)
+        out['evals'] += 1
+        if not np.array_equal(a, arr):
+            k = int(np.argmax(a != arr))
+            fail(form + ' argument modified', pts[k], float(a[k]), float(arr[k]))
     try:
-        forms['1-d'] = np.asarray(f(*(extras + (arr.copy(),)), n=n), dtype=float)
+        a1 = arr.copy()
+        forms['1-d'] = np.asarray(f(*(extras + (a1,)), n=n), dtype=float)
+        preserved('1-d', a1)
     except Exception as e:
         fail('1-d raises', None, str(e)[:150], None)
     try:
         o = np.full(arr.shape, np.nan)
-        r = f(*(extras + (arr.copy(),)), out=o, n=n)
+        a2 = arr.copy()
+        r = f(*(extras + (a2,)), out=o, n=n)
         forms['out='] = np.asarray(o if r is None or r is o else r, dtype=float)
+        preserved('out=', a2)
     except Exception as e:
         fail('out= raises', None, str(e)[:150], None)
+    try:
+        # one array object asked for every order 0..n in turn, then order n again
+        a3 = arr.copy()
+        for k in list(range(n + 1)) + [n]:
+            last = f(*(extras + (a3,)), n=k)
+        forms['1-d after orders 0..n on the same array'] = np.asarray(last, dtype=float)
+    except Exception as e:
+        fail('same-array sequence raises', None, str(e)[:150], None)
     try:
         forms['float'] = np.array([float(f(*(extras + (float(x),)), n=n)) for x in pts])
     except Exception as e:
         fail('float raises', None, str(e)[:150], None)
     try:
-        forms['0-d'] = np.array([float(np.asarray(f(*(extras + (np.array(float(x)),)), n=n))) for x in pts])
+        zs = [np.array(float(x)) for x in pts]
+        forms['0-d'] = np.array([float(np.asarray(f(*(extras + (z,)), n=n))) for z in zs])
+        out['evals'] += 1
+        if not np.array_equal(np.array([float(z) for z in zs]), arr):
+            fail('0-d argument modified', None, [float(z) for z in zs][:4], pts[:4])
     except Exception as e:
         fail('0-d raises', None, str(e)[:150], None)
     for form, got in forms.items():
